@@ -110,6 +110,28 @@ def has_complex(st):
     return any(has_complex(s) for s in st[1])
 
 
+def relayout(rng, v):
+    """an equal vector presented differently: dicts built in the opposite key order, array leaves in another
+    memory layout (Fortran order, transposed view, strided view)"""
+    if isinstance(v, dict):
+        return {k: relayout(rng, v[k]) for k in reversed(list(v))}
+    if isinstance(v, list):
+        return [relayout(rng, t) for t in v]
+    if isinstance(v, tuple):
+        return tuple(relayout(rng, t) for t in v)
+    if isinstance(v, onp.ndarray) and v.ndim >= 1 and v.size:
+        r = rng.random()
+        if v.ndim >= 2 and r < 0.4:
+            return onp.asfortranarray(v)
+        if v.ndim >= 2 and r < 0.7:
+            return onp.ascontiguousarray(onp.swapaxes(v, 0, -1)).swapaxes(0, -1)
+        big = onp.zeros(tuple(2 * d for d in v.shape), dtype=v.dtype)
+        sl = tuple(slice(None, None, 2) for _ in v.shape)
+        big[sl] = v
+        return big[sl]
+    return v
+
+
 def main():
     cfg = json.load(sys.stdin)
     rng = random.Random(cfg["seed"])
@@ -165,6 +187,17 @@ def main():
             for bvec in basis:
                 recon = vs.add(recon, vs.scalar_mul(bvec, float(vs.inner_prod(x, bvec))))
             A("basis complete", deq(recon, x))
+            # the operations are functions of the vector, not of how it is laid out in memory or keyed
+            yl, xl = relayout(rng, y), relayout(rng, x)
+            A("relayout: equal value and same space", deq(yl, y) and vspace(yl) == vs)
+            A("relayout: add", deq(vs.add(x, yl), add) and deq(vs.add(xl, y), add) and deq(vs.add(zeros, yl), y))
+            A("relayout: inner_prod", vs.inner_prod(x, yl) == ip and vs.inner_prod(xl, y) == ip
+              and vs.inner_prod(xl, xl) == xx and vs.inner_prod(x, xl) == xx)
+            A("relayout: mut_add", deq(vs.mut_add(None, yl), y) and deq(vs.mut_add(copy.deepcopy(x), yl), add))
+            A("relayout: scalar_mul / covector", deq(vs.scalar_mul(xl, float(a)), smul) and deq(vs.covector(xl), cov))
+            A("relayout: basis orthonormal against re-laid-out copies",
+              all(vs.inner_prod(p, relayout(rng, q)) == (1 if i1 == i2 else 0)
+                  for i1, p in enumerate(basis) for i2, q in enumerate(basis)))
             A("vspace equal for same structure", vspace(y) == vs and vspace(add) == vs)
             A("inputs unmodified", deq(x, x0) and deq(y, y0))
             other = inst(rng, gen_struct(rng, rng.randint(0, 2)))
